@@ -13,7 +13,7 @@
     target), every parameter value.  Choices are outside (guards are not consulted; C09). *)
 From Coq Require Import Strings.String.
 From Coq Require Import ZArith List Bool Lia Strings.Byte.
-From YV Require Import Val.Model Tree.Schema Tree.Merge Tree.PathExpr Tree.PathExprProofs Tree.Params Tree.Project Tree.ParamsProofs.
+From YV Require Import Val.Model Tree.Schema Tree.Merge Tree.PathExpr Tree.PathExprProofs Tree.Params Tree.Project Tree.ParamsProofs Tree.Reading Tree.ReadingProofs.
 Import ListNotations.
 Open Scope Z_scope.
 
@@ -146,6 +146,29 @@ Print Assumptions C07_bad_path_expr_is_error.
 Theorem C07_parse_ok_iff_balanced : forall s, (exists ps, parse_path_expr s = POk ps) <-> balanced s 0 = true.
 Proof. exact parse_ok_iff_balanced. Qed.
 Print Assumptions C07_parse_ok_iff_balanced.
+
+(** the declarative reading of a query (Tree/Reading.v: each value a member of its grammar, path
+    expressions through the denotation of their expression tree) and BuildConstraints agree; so
+    on every case of the domain the model does what the check's spec oracle demands (the verdict
+    ModelViolatesSpec cannot arise from the model) *)
+Theorem C07_interpret_agrees : forall q asts,
+  match interpret q asts with
+  | TOk P => build_constraints q = POk P
+  | TBad => is_err (build_constraints q)
+  | TUnk => True
+  end.
+Proof. exact interpret_agrees. Qed.
+Print Assumptions C07_interpret_agrees.
+
+Theorem C07_model_meets_spec : forall kids data q asts,
+  forallb wf_schema kids = true -> shaped (SCont root_meta kids) (DCont data) = true ->
+  match interpret q asts with
+  | TOk P => read_query kids data q = spec_read P kids data
+  | TBad => is_err (read_query kids data q)
+  | TUnk => True
+  end.
+Proof. exact model_meets_spec. Qed.
+Print Assumptions C07_model_meets_spec.
 
 (** the field-path match (repaired) never panics and decides the prefix order; the three
     predicates built on it are the declarative ones the views use *)
